@@ -5,7 +5,7 @@ from harness.suites import progbase, proggen
 from harness.suites.progoracles import ORACLES
 
 
-class ProgSuite:
+class ProgBaseSuite:
     name = "prog"
     module = "harness.suites.prog"
     coq_module = "CheckProg"
@@ -57,6 +57,10 @@ class ProgSuite:
     def kind(self, case, obs):
         errs = [s["exc"] for s in obs.get("steps", []) if s["exc"]]
         return f"{case.get('family')}:{case['dev']}:" + ("ok" if not errs else errs[-1])
+
+
+class ProgSuite(ProgBaseSuite):
+    pass
 
 
 for _pid, _fn in ORACLES.items():
